@@ -305,7 +305,8 @@ def run(pid=None):
     done, errors = [], []
     os.makedirs(GEN, exist_ok=True)
     for g, ks in sorted(groups.items()):
-        if pid is not None and not any(pid in k["props"] for k in ks):
+        # the shared group "numeric" is imported by every generated file: always (re)generate it
+        if pid is not None and g != "numeric" and not any(pid in k["props"] for k in ks):
             continue
         parts = ["(* GENERATED by tools/translate.py from /repo's working tree -- do not edit *)\n"
                  "From Coq Require Import ZArith Bool.\n"]
